@@ -1,6 +1,12 @@
-"""C01-C04 share one suite (see harness/schedlib.py and props/schedsuite.py)."""
-from props import schedsuite
+"""C01-C04 share one suite for the agent scheduler (harness/schedlib.py, props/schedsuite.py);
+C01-C03 also cover the application-level slot finder (props/nodelistsuite.py)."""
+from props import schedsuite, nodelistsuite
 PROP = 'C01'
 LEAN_TARGETS = ['RPVerif.Props.C01']
-def run(ctx): schedsuite.run(ctx, 'C01')
-def replay(ctx, data): return schedsuite.replay(ctx, data, 'C01')
+def run(ctx):
+    schedsuite.run(ctx, 'C01')
+    nodelistsuite.run(ctx, 'C01')
+def replay(ctx, data):
+    if 'nodelist' in data['input']:
+        return nodelistsuite.replay(ctx, data, 'C01')
+    return schedsuite.replay(ctx, data, 'C01')
